@@ -23,6 +23,7 @@ import subprocess
 import sys
 
 CACHE_DIR = Path(__file__).resolve().parent.parent / ".cache"
+SHIPPED_DIR = Path(__file__).resolve().parent.parent / "facts_cache"
 PKG = "aiomysensors"
 FACTS_VERSION = "7"
 
@@ -52,6 +53,16 @@ def load_facts(src_root: Path) -> dict:
             return json.loads(cache.read_text())
         except ValueError:
             cache.unlink()
+    # committed, content-addressed facts (pristine tree and the combined canary tree): valid only for exactly
+    # these sources - any edit of the analysed tree changes the digest and forces a fresh mypy run
+    shipped = SHIPPED_DIR / f"facts-{digest}.json.gz"
+    if shipped.exists():
+        import gzip
+
+        try:
+            return json.loads(gzip.decompress(shipped.read_bytes()).decode())
+        except (ValueError, OSError):
+            pass
     tmp = cache.with_suffix(f".{os.getpid()}.tmp")
     proc = subprocess.run(
         [sys.executable, __file__, str(src_root), str(tmp)],
